@@ -385,6 +385,10 @@ class Program:
         return [q for q in self.mro(cls_q) if q not in self.classes]
 
     # ------------------------------------------------------------------ convenience
+    def live_functions(self) -> list[FuncInfo]:
+        """All functions except private helpers whose body now lives, inlined, in every caller (sa/inline.py)."""
+        return [f for f in self.functions.values() if not f.absorbed]
+
     def func(self, qname: str) -> FuncInfo:
         f = self.functions.get(qname)
         if f is None:
